@@ -182,7 +182,69 @@ impl<'t, 'a> Un<'t, 'a> {
         }
         let sub = size / 2;
         let fields = ["x", "y", "z"];
-        match self.t.pick(if block { 16 } else { 13 }) {
+        // let and match also away from block positions (function position, tuple element, field,
+        // scrutinee, argument), half as often
+        let k = self.t.pick(18);
+        // `let` only in block positions: a parenthesised block whose lines start left of the
+        // enclosing block's column is not a layout gluon documents
+        let k = if !block && (k == 13 || k == 14 || (k == 15 && self.t.chance(1, 2))) { self.t.pick(13) } else { k };
+        match k {
+            16 | 17 => {
+                // a match / if whose type is inferred without an expected type (function position,
+                // tuple element, projection target, scrutinee) and whose alternatives are
+                // functions, records or options
+                let s = match self.t.pick(3) {
+                    0 => Tm::Var(if self.t.chance(1, 2) { "True" } else { "False" }.into()),
+                    _ => self.tm(scope, sub / 2, false),
+                };
+                let kind = self.t.pick(3);
+                let mut alt = |me: &mut Self| -> Tm {
+                    match kind {
+                        0 => {
+                            if !scope.is_empty() && me.t.chance(1, 4) {
+                                Tm::Var(scope[me.t.pick(scope.len())].clone())
+                            } else {
+                                let x = me.fresh("a");
+                                let mut sc = scope.to_vec();
+                                sc.push(x.clone());
+                                Tm::Lam(vec![x], Box::new(me.tm(&sc, sub / 2, false)))
+                            }
+                        }
+                        1 => Tm::Record(vec![("x".to_string(), me.tm(scope, sub / 2, false)), ("y".to_string(), me.tm(scope, sub / 2, false))]),
+                        _ => {
+                            if me.t.chance(1, 3) {
+                                Tm::Var("None".into())
+                            } else {
+                                Tm::Con("Some".into(), vec![me.tm(scope, sub / 2, false)])
+                            }
+                        }
+                    }
+                };
+                let a = alt(self);
+                let b = alt(self);
+                let m = if self.t.chance(1, 3) {
+                    Tm::If(Box::new(s), Box::new(a), Box::new(b))
+                } else {
+                    Tm::Match(Box::new(s), vec![(Pat::Con("True".into(), vec![]), a), (Pat::Con("False".into(), vec![]), b)])
+                };
+                let used = match kind {
+                    0 => Tm::App(Box::new(m), vec![self.tm(scope, sub / 2, false)]),
+                    1 => Tm::Proj(Box::new(m), "x".to_string()),
+                    _ => {
+                        let x = self.fresh("m");
+                        let mut sc = scope.to_vec();
+                        sc.push(x.clone());
+                        let a = self.tm(&sc, sub / 2, false);
+                        let b = self.tm(scope, sub / 2, false);
+                        Tm::Match(Box::new(m), vec![(Pat::Con("Some".into(), vec![Pat::Var(x)]), a), (Pat::Con("None".into(), vec![]), b)])
+                    }
+                };
+                if self.t.chance(1, 3) {
+                    Tm::Tuple(vec![used, self.leaf(scope)])
+                } else {
+                    used
+                }
+            }
             0 => self.leaf(scope),
             1 | 2 => {
                 // lambda
@@ -268,7 +330,15 @@ impl<'t, 'a> Un<'t, 'a> {
             _ => {
                 // match on an option or a tuple / record
                 let s = self.tm(scope, sub, false);
-                match self.t.pick(3) {
+                match self.t.pick(4) {
+                    3 => {
+                        let a = self.tm(scope, sub, false);
+                        let b = self.tm(scope, sub, false);
+                        Tm::Match(
+                            Box::new(s),
+                            vec![(Pat::Con("True".into(), vec![]), a), (Pat::Con("False".into(), vec![]), b)],
+                        )
+                    }
                     0 => {
                         let x = self.fresh("m");
                         let mut sc = scope.to_vec();
@@ -398,7 +468,8 @@ impl Property for C03 {
         }
     }
     fn gen(&self, t: &mut Tape, tier: Tier) -> Value {
-        let kind = t.pick(3);
+        // half of the cases from the untyped generator
+        let kind = [0usize, 0, 1, 2][t.pick(4)];
         let mut prog = match kind {
             0 => untyped_program(t, tier.pick(24, 48)),
             _ => {
@@ -600,6 +671,50 @@ fn features(src: &str) -> Vec<String> {
     f
 }
 
+/// In a rendered diagnostic (`NN │ source line` followed by `   │   ^^^^`): is the text left of
+/// the first marked span the start of a record field initialiser or a tuple / array component?
+fn marked_span_is_component(what: &str) -> bool {
+    let lines: Vec<&str> = what.lines().collect();
+    for i in 0..lines.len().saturating_sub(1) {
+        let (src_line, mark_line) = (lines[i], lines[i + 1]);
+        let bar = match src_line.find('│') {
+            Some(b) => b,
+            None => continue,
+        };
+        let mbar = match mark_line.find('│') {
+            Some(b) => b,
+            None => continue,
+        };
+        let marks = &mark_line[mbar + '│'.len_utf8()..];
+        let col = match marks.find('^') {
+            Some(c) => c,
+            None => continue,
+        };
+        let text = &src_line[bar + '│'.len_utf8()..];
+        // the marker's column counts display cells: a wide character left of it shifts it by one
+        let cells = marks[..col].chars().count();
+        let wide = text.chars().filter(|c| !c.is_ascii()).count();
+        for shift in 0..=wide.min(cells) {
+            let before: String = text.chars().take(cells - shift).collect();
+            let before = before.trim_end();
+            if before.ends_with('(') || before.ends_with(',') || before.ends_with('[') {
+                return true;
+            }
+            if let Some(b) = before.strip_suffix('=') {
+                // `{ name =` or `, name =`: a field, not a let binding
+                let b = b.trim_end();
+                let name_start = b.rfind(|c: char| !(c.is_alphanumeric() || c == '_')).map(|p| p + 1).unwrap_or(0);
+                let left = b[..name_start].trim_end();
+                if left.ends_with('{') || left.ends_with(',') {
+                    return true;
+                }
+            }
+        }
+        return false;
+    }
+    false
+}
+
 /// features of a checker error message that identify the recorded findings
 fn error_features(what: &str) -> Vec<String> {
     let mut f = vec![];
@@ -614,7 +729,8 @@ fn error_features(what: &str) -> Vec<String> {
             f.push("separately_generalised_fields_do_not_unify".into());
         }
         // the annotation carries the inner quantifier that was printed for the inferred type
-        if e.contains("forall") && e.replace("forall a . ", "") == *g {
+        // (inside a component: a quantifier in front of the whole type is another matter)
+        if e.contains("forall") && !e.starts_with("forall") && e.replace("forall a . ", "") == *g {
             f.push("separately_generalised_fields_do_not_unify".into());
         }
         // a tuple / record pattern against a right-hand side that was generalised as a whole
@@ -622,19 +738,65 @@ fn error_features(what: &str) -> Vec<String> {
             f.push("pattern_against_generalised_rhs".into());
         }
     }
-    // in multi-line renderings: a field or component whose type starts with a quantifier
-    if what.contains("Expected the following types to be equal")
-        && (what.contains(": forall ") || what.contains(", forall ") || what.contains("(forall "))
-    {
+    // in multi-line renderings: a field or component whose type starts with a quantifier (the
+    // quantifier in front of a whole `Expected:` / `Found:` type does not count)
+    let inner: String = what
+        .lines()
+        .map(|l| {
+            let l = l.trim_start();
+            let l = l.strip_prefix("Expected:").or_else(|| l.strip_prefix("Found:")).unwrap_or(l);
+            // one line, single spaces: a type broken over several lines reads `.., forall a . ..`
+            format!("{} ", l.trim())
+        })
+        .collect();
+    let component_forall = |text: &str| text.contains(": forall ") || text.contains(", forall ") || text.contains("(forall ");
+    if what.contains("Expected the following types to be equal") && component_forall(&inner) {
         if !f.iter().any(|x| x == "separately_generalised_fields_do_not_unify" || x == "pattern_against_generalised_rhs") {
             f.push("separately_generalised_fields_do_not_unify".into());
         }
     }
+    // the mismatch is reported at a field initialiser / tuple or array component (the text left
+    // of the marked span ends with `name =`, `(`, `,` or `[`) and one side is that component's
+    // separately generalised type
+    if let (Some(e), Some(g)) = (&e, &g) {
+        if (e.starts_with("forall") || g.starts_with("forall")) && marked_span_is_component(what) {
+            if !f.iter().any(|x| x == "separately_generalised_fields_do_not_unify") {
+                f.push("separately_generalised_fields_do_not_unify".into());
+            }
+        }
+    }
     // the reported (non-principal) type carries a quantifier inside a field / component
-    if what.contains("the reported type is not the principal type")
-        && (what.contains(": forall ") || what.contains(", forall ") || what.contains("(forall "))
-    {
-        f.push("separately_generalised_fields_do_not_unify".into());
+    // (separate generalisation only ever splits one variable into several: a reported type with
+    // fewer distinct variables than the principal one identifies variables that must differ,
+    // which is another defect - cf. the capture repaired as KF-C03-06)
+    if what.contains("the reported type is not the principal type") && component_forall(what) {
+        let field = |key: &str| what.lines().find_map(|l| l.trim_start().strip_prefix(key)).map(|x| x.trim().to_string());
+        let distinct = |t: &str| -> usize {
+            let mut seen: Vec<String> = vec![];
+            let cs: Vec<char> = t.chars().collect();
+            let mut i = 0;
+            while i < cs.len() {
+                if cs[i] == '?' {
+                    let mut j = i + 1;
+                    while j < cs.len() && cs[j].is_ascii_digit() {
+                        j += 1;
+                    }
+                    let v: String = cs[i..j].iter().collect();
+                    if !seen.contains(&v) {
+                        seen.push(v);
+                    }
+                    i = j;
+                } else {
+                    i += 1;
+                }
+            }
+            seen.len()
+        };
+        if let (Some(want), Some(got)) = (field("principal (algorithm W):"), field("reported (canonical):")) {
+            if distinct(&got) >= distinct(&want) {
+                f.push("separately_generalised_fields_do_not_unify".into());
+            }
+        }
     }
     // a generalised (rigid) variable against a concrete type
     if let (Some(e), Some(g)) = (&e, &g) {
@@ -644,6 +806,28 @@ fn error_features(what: &str) -> Vec<String> {
         };
         if is_var(e) != is_var(g) {
             f.push("generalised_variable_against_concrete_type".into());
+        }
+    }
+    // the checker's row defect (KF-C02-01/05) seen from here: the reported type is the principal
+    // one except that closed record rows are left open
+    if what.contains("the reported type is not the principal type") {
+        let field = |key: &str| what.lines().find_map(|l| l.trim_start().strip_prefix(key)).map(|x| x.trim().to_string());
+        if let (Some(want), Some(got)) = (field("principal (algorithm W):"), field("reported (canonical):")) {
+            // remove every ` | ?<digits>` tail
+            let mut closed = String::new();
+            let mut rest = got.as_str();
+            let mut removed = 0;
+            while let Some(p) = rest.find(" | ?") {
+                closed.push_str(&rest[..p]);
+                let after = &rest[p + 4..];
+                let n = after.chars().take_while(|c| c.is_ascii_digit()).count();
+                rest = &after[n..];
+                removed += 1;
+            }
+            closed.push_str(rest);
+            if removed > 0 && closed == want && !want.contains(" | ?") {
+                f.push("closed_row_reported_open".into());
+            }
         }
     }
     if what.contains("Unexpected token: Pipe") && what.contains(" | ") {
